@@ -52,7 +52,8 @@ TypesExec == [
   U |-> [kind |-> "UNION", possible |-> {"A", "C"}, possibleSeq |-> <<"A", "C">>, values |-> <<>>, way |-> "", fields |-> NoFields],
   E |-> [kind |-> "ENUM", possible |-> {}, possibleSeq |-> <<>>, values |-> <<"X", "Y">>, way |-> "", fields |-> NoFields],
   Mutation |-> [kind |-> "OBJECT", possible |-> {"Mutation"}, possibleSeq |-> <<"Mutation">>, values |-> <<>>, way |-> "key",
-    fields |-> [ m1 |-> Rs(Nm("T")), m2 |-> Rs(Nn(Nm("T"))), m3 |-> Rs(Nm("String")), m4 |-> Rs(Nn(Nm("String"))), ml |-> Rs(Li(Nm("T"))) ]],
+    fields |-> [ m1 |-> Rs(Nm("T")), m2 |-> Rs(Nn(Nm("T"))), m3 |-> Rs(Nm("String")), m4 |-> Rs(Nn(Nm("String"))), ml |-> Rs(Li(Nm("T"))),
+                 mg |-> RsA(Nm("String"), GArgs), mgn |-> RsA(Nn(Nm("String")), GArgs) ]],
   Subscription |-> [kind |-> "OBJECT", possible |-> {"Subscription"}, possibleSeq |-> <<"Subscription">>, values |-> <<>>, way |-> "key",
     fields |-> [ ev |-> RsA(Nm("T"), FArgs), evs |-> Rs(Nm("String")) ]],
   In |-> [kind |-> "INPUT", fields |-> NoFields, possible |-> {}, possibleSeq |-> <<>>, values |-> <<>>, way |-> "", inputs |-> InFields],
